@@ -1,10 +1,14 @@
 """C17 — module graphs evaluate each module once, in dependency order.
 
-Proof: coq/C17/Props_C17.v about the executable model coq/C17/Modules.v (a transliteration of
-core/engine/src/module/source.rs + mod.rs).  Tie: correspondence — the extracted model (ocaml/C17/model) and the
-harness `modops` (real engine, public module API, logging ModuleLoader) run on the same graph descriptions and
-every result line (print trace, promise state, loader log per op) is diffed.  Search: the property's own oracle
-(gen/c17_oracle.py, independent of model and engine) is evaluated on every implementation result.
+Proof: coq/C17/Props_C17.v (18 theorems: Evaluate() on synchronous graphs of any size and shape; Link() without link errors;
+the load phase on any graph) about the executable model
+coq/C17/Modules.v (a transliteration of core/engine/src/module/source.rs + mod.rs).  Tie: correspondence — the extracted
+model (ocaml/C17/_build/model) and the harness `modops` (real engine, public module API, logging ModuleLoader) run on
+the same graph descriptions and every result line (print trace, promise state, loader log per op) is diffed.  Search: the
+property's own oracle (gen/c17_oracle.py, independent of model and engine) is evaluated on every implementation result.
+
+The model carries the current and the repaired behaviour of three asynchronous deviations (Modules.cfg; repairs in
+fixes.d/C17-*.patch); which one the working tree has is determined by probe cases before the correspondence runs.
 """
 import itertools
 import os
@@ -21,28 +25,37 @@ import c17_oracle as O
 
 PROP = "C17"
 TRUSTED = [
-    "Coq 8.16.1 kernel (no native_compute); extraction with ExtrOcamlBasic only, OCaml 4.13",
+    "Coq 8.16.1 kernel (no native_compute; vm_compute only in one Example); extraction with ExtrOcamlBasic only, OCaml 4.13",
     "hand-written model coq/C17/Modules.v (transliteration of module/source.rs, module/mod.rs); tied to the code only by the correspondence runs",
     "ocaml/C17/driver.ml (case parser, printer), harness/src/bin/modops.rs (source generation, logging loader, catch_unwind), gen/c17_*.py",
     "modelled, not verified: SimpleJobExecutor FIFO promise-job order, futures-concurrency 7.7.1 FutureGroup slot order (loader call order; compared exactly, "
     "downgraded to a multiset comparison when only the order differs), one job per `await`, debug-build assertions",
-    "theorems cover graphs without top-level await only; graphs with top-level await are correspondence-checked only",
+    "theorems cover Evaluate() on graphs without top-level await, from a state `Ready` (what linking establishes; shown re-established by every "
+    "evaluation, established by Link() on graphs without link errors) and the load phase (loaded_once); link errors, the composition load+link+"
+    "evaluate and graphs with top-level await are correspondence-checked only",
+    "which variant of Modules.cfg (current / repaired async deviations) the tree has is decided by 5 probe cases, not proved",
 ]
 FLAG_CHOICES = ["", "t", "a", "at", "aT", "aa"]
-MODEL_BIN = os.path.join(vlib.OCAML, "C17", "model")
+MODEL_BIN = os.path.join(vlib.OCAML, "C17", "_build", "model")
+# probe cases that tell the variants of Modules.cfg apart (model flag -> cases)
+PROBES = ["a:;t:n0 | L1,L0,L1", "a:;t:s0;-:i1 | L2,L1", "a:;-:e0,s2;-:s0,s1 | L2,L1,L0,L2",
+          "aa:x1,s2,i4;aa:n4;-:s3,n4;a:n0;a: | L3,L2,L0", "a:;-:n0,n2;-:n1 | L1,L2"]
+FLAGS = ["--reject-m", "--own-pending", "--gather-keeps"]
+VARIANTS = [[f for k, f in enumerate(FLAGS) if mask >> k & 1] for mask in range(8)]
 
 
-def run_lines(binpath, lines, per_case_s=0.05, floor_s=60):
+def run_lines(binpath, lines, per_case_s=0.05, floor_s=120, args=()):
     """Run a line-oriented binary over the lines in parallel chunks.  Returns (outputs, n_timeouts)."""
     if not lines:
         return [], 0
-    nchunks = min(len(lines), max(1, vlib.NCPU) * 4)
+    binpath = [binpath] + list(args)
+    nchunks = min(len(lines), max(1, vlib.NCPU) * 2)
     size = (len(lines) + nchunks - 1) // nchunks
     chunks = [lines[i:i + size] for i in range(0, len(lines), size)]
 
     def one(chunk):
         try:
-            p = subprocess.run([binpath], input="\n".join(chunk) + "\n", stdout=subprocess.PIPE, stderr=subprocess.PIPE,
+            p = subprocess.run(binpath, input="\n".join(chunk) + "\n", stdout=subprocess.PIPE, stderr=subprocess.PIPE,
                                text=True, timeout=floor_s + per_case_s * len(chunk) * 20)
             out = p.stdout.split("\n")
             if out and out[-1] == "":
@@ -55,7 +68,7 @@ def run_lines(binpath, lines, per_case_s=0.05, floor_s=60):
         outs, to = [], 0
         for l in chunk:
             try:
-                p = subprocess.run([binpath], input=l + "\n", stdout=subprocess.PIPE, stderr=subprocess.PIPE, text=True, timeout=30)
+                p = subprocess.run(binpath, input=l + "\n", stdout=subprocess.PIPE, stderr=subprocess.PIPE, text=True, timeout=60)
                 o = p.stdout.strip().split("\n")[0] if p.stdout.strip() else "X-outer:exit %d" % p.returncode
             except subprocess.TimeoutExpired:
                 o, to = "TIMEOUT", to + 1
@@ -83,7 +96,9 @@ def exhaustive_cases(run):
             shapes = list(G.edge_shapes(n))
             fam = "exh%d-edges" % n
         for sh in shapes:
-            entries = range(n) if n <= 3 else [0]
+            # the shape sets are closed under renaming of modules, so entry 0 over all shapes covers every entry up to
+            # renaming; the thorough tier also runs the other entries of the 3-module shapes explicitly
+            entries = range(n) if (n <= 2 or (n == 3 and not run.quick)) else [0]
             for e in entries:
                 ops = G.default_ops(rng, n, entry=e)
                 # all reads, no flags: the synchronous skeleton of the shape
@@ -97,21 +112,21 @@ def exhaustive_cases(run):
                             c["mods"][m]["flags"] = fl[m] + c["mods"][m]["flags"]
                         out.append((fam + "-allflags", c))
             else:
-                nrand = (3 if n == 3 else 0) if run.quick else (8 if n == 3 else 2)
+                nrand = (1 if n == 3 else 0) if run.quick else (4 if n == 3 else (1 if len(out) % 4 == 0 else 0))
                 for i in range(nrand):
                     prof = [G.PROFILES["sync-throw"], G.PROFILES["tla"], G.PROFILES["tla-throw"], G.PROFILES["reexport"]][i % 4]
                     c = G.decorate(rng, sh, prof, G.default_ops(rng, n, entry=0 if n == 4 else rng.randrange(n)))
                     out.append((fam + "-randflags", c))
         if n == 3 and not run.quick:
             for sh in G.edge_shapes(3):
-                for fl in itertools.product(FLAG_CHOICES, repeat=3):
+                for fl in itertools.product(FLAG_CHOICES[:4], repeat=3):
                     e = rng.randrange(3)
                     c = G.decorate(rng, sh, {"let": 0.1}, G.default_ops(rng, 3, entry=e))
                     for m in range(3):
                         c["mods"][m]["flags"] = fl[m] + c["mods"][m]["flags"]
                     out.append(("exh3-edges-allflags", c))
         if n == 4 and not run.quick:
-            for _ in range(40000):
+            for _ in range(10000):
                 sh = tuple(tuple(rng.sample(range(4), rng.randrange(5))) for _ in range(4))
                 c = G.decorate(rng, sh, rng.choice(list(G.PROFILES.values())), G.default_ops(rng, 4))
                 out.append(("rand4-orders", c))
@@ -159,13 +174,42 @@ def distribution(cases):
     return d
 
 
+def wild_eq(impl_line, model_line):
+    """Equality of canonical result lines; a '?' printed by the model (read of a `var` export whose module has not started,
+    see ocaml/C17/driver.ml) stands for '!' or 'u'."""
+    if impl_line == model_line:
+        return True
+    if "?" not in model_line or len(impl_line) != len(model_line):
+        return False
+    return all(a == b or (b == "?" and a in "!u") for a, b in zip(impl_line, model_line))
+
+
+def detect_variant(hbin, run):
+    """Which of the behaviours of Modules.cfg does the working tree have?  Decided by probe cases; the answer and the
+    probe outputs go into the evidence.  Undetermined -> cfg0 (the correspondence will then report the differences)."""
+    impl, _ = run_lines(hbin, PROBES)
+    ci = [O.canon_result(x) for x in impl]
+    found = None
+    table = {}
+    for v in VARIANTS:
+        mo, _ = run_lines(MODEL_BIN, PROBES, args=v)
+        ok = [wild_eq(a, O.canon_model(b)) for a, b in zip(ci, mo)]
+        table[" ".join(v) or "cfg0"] = sum(ok)
+        if all(ok) and found is None:
+            found = v
+    run.cov["model_variant"] = {"chosen": (" ".join(found) or "cfg0") if found is not None else "undetermined -> cfg0",
+                                "probe_matches": table, "probes": PROBES}
+    return found if found is not None else []
+
+
 def main():
     run = Run(PROP, "proof")
     run.cov["rule"] = ("a case = module graph (<= 8 modules; request lists in source order, per-module flags throw / top-level await / let, "
                        "import kinds named / namespace / side-effect / re-export / export-star / read through a re-export, unresolvable or "
                        "missing imports in the malformed stream) + a sequence of load_link_evaluate ops (entry, every other module, entry again); "
-                       "exhaustive: every assignment of ordered request lists for <= 3 modules (quick) and every edge set for 4 modules (thorough), "
+                       "exhaustive: every assignment of ordered request lists for <= 3 modules (both tiers) and every edge set for 4 modules (thorough), "
                        "every entry; random structured graphs beyond.  distinct = distinct case line; non-trivial = at least one edge")
+    run.cov["exhaustive"] = False
     broken = None
     # 1-2. proofs, gates, extraction
     pr = vlib.proof_stage(PROP, ["C17"], "C17/Props_C17.v", extra_targets=["C17/Extract_C17.vo"])
@@ -184,9 +228,10 @@ def main():
             return run.finish()
         vlib.infra_error(PROP, "harness build failed: " + blog[-400:])
     hbin = paths["modops"]
+    variant = detect_variant(hbin, run) if have_model else []
     # 4. cases
     t0 = time.time()
-    cases = corpus_cases() + exhaustive_cases(run) + random_cases(run, 6000 if run.quick else 60000)
+    cases = corpus_cases() + exhaustive_cases(run) + random_cases(run, 3000 if run.quick else 25000)
     if broken is not None:
         cases += random_cases(run, 30000)         # enlarged search
     lines = [G.case_line(c) for _, c in cases]
@@ -198,12 +243,26 @@ def main():
     model = None
     if have_model:
         t0 = time.time()
-        model, _ = run_lines(MODEL_BIN, lines, per_case_s=0.01)
+        model, _ = run_lines(MODEL_BIN, lines, per_case_s=0.01, args=variant)
         run.cov["model_s"] = round(time.time() - t0, 1)
+    # the harness reuses one engine Context for many cases: a sample is re-run with a fresh Context per case
+    t0 = time.time()
+    step = max(1, len(lines) // (400 if run.quick else 4000))
+    sample_idx = list(range(0, len(lines), step))
+    os.environ["MODOPS_FRESH_CONTEXT"] = "1"
+    try:
+        fresh, _ = run_lines(hbin, [lines[k] for k in sample_idx])
+    finally:
+        del os.environ["MODOPS_FRESH_CONTEXT"]
+    isolation_diffs = [(lines[k], impl[k], f) for k, f in zip(sample_idx, fresh) if k < len(impl) and impl[k] != f and f != "TIMEOUT" and impl[k] != "TIMEOUT"]
+    run.cov["context_reuse_check"] = {"cases_rerun_fresh": len(sample_idx), "different": len(isolation_diffs), "s": round(time.time() - t0, 1)}
+    if isolation_diffs:
+        vlib.infra_error(PROP, "harness modops: result depends on Context reuse: %r" % (isolation_diffs[0],))
     stats = {"match": 0, "match_loads_unordered": 0, "mismatch": 0, "timeouts": tos, "model_fuel": 0,
              "impl_states": {}, "oracle_failures": {}}
     reported = set()
     corr_reported = 0
+    nsync = 0
     for k, ((fam, c), line) in enumerate(zip(cases, lines)):
         il = impl[k] if k < len(impl) else "<missing>"
         edges = sum(len(m["decls"]) for m in c["mods"])
@@ -230,22 +289,24 @@ def main():
                 stats["model_fuel"] += 1
                 continue
             ci = O.canon_result(il)
-            if ci == ml:
+            if wild_eq(ci, ml):
                 stats["match"] += 1
-            elif O.sorted_loads_result(il) == O.sorted_loads_result(ml):
+            elif wild_eq(O.sorted_loads_result(il), O.sorted_loads_result(ml)):
                 stats["match_loads_unordered"] += 1
             else:
                 stats["mismatch"] += 1
                 if corr_reported < 3:
                     corr_reported += 1
                     run.violation({"kind": "correspondence-broken", "class": None, "input": line, "family": fam, "impl_output": ci, "model_output": ml,
+                                   "model_variant": " ".join(variant) or "cfg0",
                                    "obligation": "coq/C17/Modules.v (extracted) vs the engine on the same graph: trace / promise state / loader log",
                                    "property_oracle_on_impl": [list(x) for x in fails[:5]],
-                                   "how_to_rerun": "echo '%s' | harness/target/debug/modops ; echo '%s' | ocaml/C17/model" % (line, line)},
+                                   "how_to_rerun": "echo '%s' | harness/target/debug/modops ; echo '%s' | ocaml/C17/_build/model %s" % (line, line, " ".join(variant))},
                                   found_input=bool(fails))
         if k % 997 == 0:
             run.sample({"case": line, "impl": il, "model": (model[k] if model and k < len(model) else None)})
     run.cov["correspondence"] = stats
+    run.cov["traces_validated_against_impl"] = stats["match"] + stats["match_loads_unordered"]
     if broken is not None:
         if not run.violations:
             run.violation({"kind": "proof-broken", "obligation": "C17/Props_C17.v", "detail": broken,
@@ -263,8 +324,9 @@ def replay(obj):
     print("input :", line)
     print("impl  :", out[0] if out else "")
     if build_model()[0]:
-        m, _ = run_lines(MODEL_BIN, [line])
-        print("model :", m[0] if m else "")
+        for v in VARIANTS:
+            m, _ = run_lines(MODEL_BIN, [line], args=v)
+            print("model [%s]:" % (" ".join(v) or "cfg0"), m[0] if m else "")
     c = G.parse_line(line)
     fails = O.check(c, out[0] if out else "")
     print("oracle:", O.classify(c, fails)[0], fails[:5])
